@@ -204,7 +204,7 @@ def describe(tier):
             "operations return the receiver; queries do not change the document.  Executes _elements/_set_element/_update_etree/"
             "_inherited_attrib/_clone/toetree and every operation's own cache bookkeeping."
         ),
-        "bounds": {"documents": ["basic", "pico"] if tier == "quick" else list(DOCS), "histories": "length <= 1 before the operation under test (quick) / <= 2 (thorough): 9 state-setting operations x 27 operations x 2 modes"},
+        "bounds": {"documents": ["basic", "pico", "styled"] if tier == "quick" else list(DOCS), "histories": "length <= 1 before the operation under test plus four read-then-edit histories of length 2 (quick) / <= 2 (thorough): 9 state-setting operations x 29 operations x 2 modes"},
         "outside": PIPE_OUTSIDE + ["the state-class argument extends the bound by induction only if the classes cover all reachable cache states (argued in DESIGN, not proved)", "histories longer than the bound"],
         "stubs": common.mods().stubs + FP.CONTRACT,
         "assumptions": FP.CONTRACT + ["floats as reals"],
